@@ -651,16 +651,25 @@ class DynamicBayesianNetwork(DAG):
                 if all(x[1] == parents[0][1] for x in parents):
                     if parents:
                         evidence_card = cpd.cardinality[1:]
+                        # The columns of cpd.values are in the order of cpd's evidence
+                        evidence = [
+                            DynamicNode(var[0], 1 - var[1]) for var in cpd.variables[1:]
+                        ]
                         new_cpd = TabularCPD(
                             temp_var,
                             cpd.variable_card,
                             cpd.values.reshape(
                                 cpd.variable_card, np.prod(evidence_card)
                             ),
-                            parents,
+                            evidence,
                             evidence_card,
+                            state_names={
+                                DynamicNode(var[0], 1 - var[1]): states
+                                for var, states in cpd.state_names.items()
+                            },
                         )
                     else:
+                        state_names = {temp_var: cpd.state_names[cpd.variable]}
                         if cpd.get_evidence():
                             initial_cpd = cpd.marginalize(
                                 cpd.get_evidence(), inplace=False
@@ -668,13 +677,15 @@ class DynamicBayesianNetwork(DAG):
                             new_cpd = TabularCPD(
                                 temp_var,
                                 cpd.variable_card,
-                                np.reshape(initial_cpd.values, (2, -1)),
+                                np.reshape(initial_cpd.values, (cpd.variable_card, -1)),
+                                state_names=state_names,
                             )
                         else:
                             new_cpd = TabularCPD(
                                 temp_var,
                                 cpd.variable_card,
-                                np.reshape(cpd.values, (2, -1)),
+                                np.reshape(cpd.values, (cpd.variable_card, -1)),
+                                state_names=state_names,
                             )
                     self.add_cpds(new_cpd)
             self.check_model()
